@@ -65,8 +65,9 @@ type crashExec struct {
 	failSpec  *kvh.CrashSpec
 	// C04: the op index of the batch under observation and whether a Sync batch's durability is asserted
 	materialiseKeepPhysical bool
-	nestedDepth             int // how many levels of crash-during-recovery are enumerated (0 = none)
-	nestedMax               int // cap of nested instants per Open (0 = all)
+	nestedDepth             int  // how many levels of crash-during-recovery are enumerated (0 = none)
+	nestedMax               int  // cap of nested instants per Open (0 = all)
+	nestedCreates           bool // file creations and directory operations during a recovery Open are crash instants too (C07)
 	uniq                    int
 	afterStep               func(x *crashExec, op *kvh.Op, mutated bool) *kvh.Fail
 	nonTrivial              func(x *crashExec, inst *kvh.Instant, cuts map[string]int64) bool
@@ -564,10 +565,12 @@ func (x *crashExec) openArmed(img string, reader kvh.Opt, level int, out *[]*kvh
 		n++
 		interesting := false
 		switch ev.Kind {
-		case "remove", "rename", "removeall", "mkdir", "truncate":
+		case "truncate":
 			interesting = true
+		case "remove", "rename", "removeall", "mkdir":
+			interesting = x.nestedCreates // directory operations of merge adoption are C07's domain
 		case "open":
-			if _, err := os.Stat(ev.Path); err != nil {
+			if _, err := os.Stat(ev.Path); err != nil && x.nestedCreates {
 				interesting = true // creates the file
 			}
 		}
